@@ -107,6 +107,23 @@ func (e *c08Exec) body(s *vsched.Sched) {
 		prog := e.h.Threads[ti]
 		e.events[ti] = make([]c08Event, 0, len(prog))
 		view := &regSys{u: e.u, reg: e.reg, model: e.model0, ctx: context.Background(), handles: append([]ociregistry.BlobWriter(nil), pro.handles...)}
+		// Handle identity: every thread starts with the prologue's handles (shared objects, writer 0);
+		// a Resume made by a thread yields a handle only that thread holds. Operations that do not name
+		// a writer explicitly are attributed accordingly, so that the model's per-handle start-offset
+		// check follows the handle that was really used.
+		curW := 0
+		prog = append([]cOp(nil), prog...)
+		for i, o := range prog {
+			if o.Op == nil || o.Op.W != 0 {
+				continue
+			}
+			c := *o.Op
+			if c.K == "Resume" {
+				curW = 100 + ti
+			}
+			c.W = curW
+			prog[i].Op = &c
+		}
 		s.Go(fmt.Sprintf("T%d", ti), func() {
 			for i, op := range prog {
 				ev := c08Event{Thread: ti, Index: i, Op: op, Inv: c08NextSeq()}
